@@ -217,6 +217,31 @@ pub mod verif {
         bytes.pos()
     }
 
+    fn run_after(f: impl FnOnce(&mut Bytes<'_>), buf: &[u8], skip: usize) -> usize {
+        let mut bytes = Bytes::new(buf);
+        // SAFETY: `skip <= buf.len()` is checked by the caller
+        unsafe { bytes.advance(skip) };
+        f(&mut bytes);
+        bytes.pos() - skip
+    }
+
+    /// Like `scan`, but the scanner is entered with `skip` bytes already consumed and not yet
+    /// committed (as happens on the continuation line of a folded header value).
+    pub fn scan_after(backend: u8, class: u8, buf: &[u8], skip: usize) -> Option<usize> {
+        if skip > buf.len() {
+            return None;
+        }
+        match (backend, class) {
+            (BACKEND_SWAR, CLASS_URI) => Some(run_after(super::swar::match_uri_vectored, buf, skip)),
+            (BACKEND_SWAR, CLASS_VALUE) => Some(run_after(super::swar::match_header_value_vectored, buf, skip)),
+            (BACKEND_SWAR, CLASS_NAME) => Some(run_after(super::swar::match_header_name_vectored, buf, skip)),
+            (BACKEND_SELECTED, CLASS_URI) => Some(run_after(super::match_uri_vectored, buf, skip)),
+            (BACKEND_SELECTED, CLASS_VALUE) => Some(run_after(super::match_header_value_vectored, buf, skip)),
+            (BACKEND_SELECTED, CLASS_NAME) => Some(run_after(super::match_header_name_vectored, buf, skip)),
+            _ => None,
+        }
+    }
+
     /// Runs one scanner of one backend on `buf`; `None` when that backend is not part of
     /// this build or not supported by this CPU.
     pub fn scan(backend: u8, class: u8, buf: &[u8]) -> Option<usize> {
